@@ -870,7 +870,7 @@ class FnTr:
             return self.struct_lit(e)
         if k == "tuple":
             vs = [self.expr(x) for x in e[1]]
-            return Val("(" + ", ".join(v.lean for v in vs) + ")", ("tuple", [v.ty for v in vs]))
+            return Val("(" + ", ".join(v.lean for v in vs) + ")", ("tuple", tuple(v.ty for v in vs)))
         if k == "unsafe":
             raise Unsupported("unsafe block")
         if k == "macro":
@@ -1869,7 +1869,7 @@ class FnTr:
         for a in list(self.aliases):
             self.flush(a)
         for n in self.outs:
-            ov = self.scope.get(n)
+            ov = getattr(self, "out_vars", {}).get(n) or self.scope.get(n)      # (the name may have been shadowed by a local)
             if ov is None or ov.elems is not None or ov.view is not None:
                 raise Unsupported(f"`&mut` parameter {n} is not a plain variable at the end of the function")
             comps.append(ov.lean)
